@@ -17,6 +17,7 @@ import (
 	"os"
 	"path"
 	"path/filepath"
+	"reflect"
 	"runtime"
 	"sort"
 	"strings"
@@ -56,6 +57,7 @@ type Input struct {
 	Trusted   bool     `json:"trusted"`
 	Cwd       string   `json:"cwd"`     // working directory of the process while the calls are made ("" = wherever the harness runs)
 	Path      []string `json:"path"`    // directories put in front of PATH while the calls are made
+	Peers     []string `json:"peers"`   // names other goroutines use on the same manager meanwhile
 	History   []string `json:"history"` // earlier steps on the same manager: install | uninstall | get | touchSrc | dropSrc
 	FS        []Node   `json:"fs"`
 }
@@ -379,7 +381,9 @@ func absRoot(cwd, root string) string {
 
 // serial: the case changes process-wide state (working directory, PATH) or executes a file written
 // in the same case - it runs while no other case does
-func serial(in Input) bool { return len(in.History) > 0 || in.Cwd != "" || len(in.Path) > 0 }
+func serial(in Input) bool {
+	return len(in.History) > 0 || in.Cwd != "" || len(in.Path) > 0 || len(in.Peers) > 0
+}
 
 // runCase queues a case; tags are distribution counters of the generator.
 func (e *env) runCase(in Input, tags ...string) error {
@@ -388,6 +392,9 @@ func (e *env) runCase(in Input, tags ...string) error {
 	}
 	if in.Path == nil {
 		in.Path = []string{}
+	}
+	if in.Peers == nil {
+		in.Peers = []string{}
 	}
 	if !safe(in, effectiveName(in)) {
 		e.c.Count("skipped=would-leave-the-sandbox")
@@ -636,45 +643,49 @@ func (e *env) execCase(k int, j *job) (o Obs, herr error) {
 			odd = append(odd, "!the sandbox cannot be read after the history")
 		}
 	}
-	switch in.Op {
-	case "get":
-		get(true)
-	case "uninstall":
-		call("Uninstall", func() { o.Err = mgr.Uninstall(ctx, in.Name) != nil })
-	case "install":
-		call("Install", func() {
-			_, _, err := mgr.Install(ctx, plugin.CLIInstallOptions{PluginPath: src, Overwrite: in.Overwrite})
-			o.Err = err != nil
-		})
-	case "list":
-		call("List", func() {
-			names, err := mgr.List(ctx)
-			o.Err = err != nil
-			o.Listed = append(o.Listed, names...)
-			sort.Strings(o.Listed)
-		})
-	case "verify":
-		sig, err := common.SignEnvelope(common.EnvOpts{Chain: e.chain, Target: &e.desc,
-			ExtAttrs: []signature.Attribute{{Key: "io.cncf.notary.verificationPlugin", Critical: true, Value: in.Name}}})
-		if err != nil {
-			return o, fmt.Errorf("signing: %w", err)
+	if len(in.Peers) > 0 {
+		odd = append(odd, e.concurrent(ctx, mgr, in, caseDir, src, &o)...)
+	} else {
+		switch in.Op {
+		case "get":
+			get(true)
+		case "uninstall":
+			call("Uninstall", func() { o.Err = mgr.Uninstall(ctx, in.Name) != nil })
+		case "install":
+			call("Install", func() {
+				_, _, err := mgr.Install(ctx, plugin.CLIInstallOptions{PluginPath: src, Overwrite: in.Overwrite})
+				o.Err = err != nil
+			})
+		case "list":
+			call("List", func() {
+				names, err := mgr.List(ctx)
+				o.Err = err != nil
+				o.Listed = append(o.Listed, names...)
+				sort.Strings(o.Listed)
+			})
+		case "verify":
+			sig, err := common.SignEnvelope(common.EnvOpts{Chain: e.chain, Target: &e.desc,
+				ExtAttrs: []signature.Attribute{{Key: "io.cncf.notary.verificationPlugin", Critical: true, Value: in.Name}}})
+			if err != nil {
+				return o, fmt.Errorf("signing: %w", err)
+			}
+			trustRoot := e.chain.Root().Cert
+			if !in.Trusted {
+				trustRoot = e.other.Root().Cert
+			}
+			v, err := verifier.NewVerifierWithOptions(memStore{[]*x509.Certificate{trustRoot}},
+				verifier.VerifierOptions{OCITrustPolicy: e.policy, PluginManager: mgr})
+			if err != nil {
+				return o, err
+			}
+			call("Verify", func() {
+				_, err = v.Verify(ctx, e.desc, sig, notation.VerifierVerifyOptions{
+					ArtifactReference: "reg.example/repo@" + e.desc.Digest.String(), SignatureMediaType: common.MediaJWS})
+				o.Err = err != nil
+			})
+		default:
+			return o, fmt.Errorf("unknown op %q", in.Op)
 		}
-		trustRoot := e.chain.Root().Cert
-		if !in.Trusted {
-			trustRoot = e.other.Root().Cert
-		}
-		v, err := verifier.NewVerifierWithOptions(memStore{[]*x509.Certificate{trustRoot}},
-			verifier.VerifierOptions{OCITrustPolicy: e.policy, PluginManager: mgr})
-		if err != nil {
-			return o, err
-		}
-		call("Verify", func() {
-			_, err = v.Verify(ctx, e.desc, sig, notation.VerifierVerifyOptions{
-				ArtifactReference: "reg.example/repo@" + e.desc.Digest.String(), SignatureMediaType: common.MediaJWS})
-			o.Err = err != nil
-		})
-	default:
-		return o, fmt.Errorf("unknown op %q", in.Op)
 	}
 	after, err := snapshot(sandbox, caseDir)
 	if err != nil {
@@ -720,6 +731,163 @@ func (e *env) execCase(k int, j *job) (o Obs, herr error) {
 	sort.Strings(o.Executed)
 	return o, nil
 }
+
+// concurrent: the observed operation is repeated for in.Name while one goroutine per peer uses the
+// SAME manager object with another name - even peers look their (installed) plugin up, odd peers
+// create and uninstall their (otherwise absent) directory. Every answer must be the sequential
+// answer for its own name: the plugin handed out for a name is the one of that name (its path is
+// read from the returned object; every distinct plugin object handed out for in.Name is run once at
+// the end, so the marker file shows which executables a caller would have run), an uninstall
+// removes its own directory only (final snapshot), and nothing a peer is handed belongs to anyone
+// else. Returns what cannot be expressed otherwise ("!..." entries among the executed paths).
+func (e *env) concurrent(ctx context.Context, mgr *plugin.CLIManager, in Input, caseDir, src string, o *Obs) []string {
+	var mu sync.Mutex
+	var odd []string
+	note := func(format string, a ...any) {
+		mu.Lock()
+		defer mu.Unlock()
+		if len(odd) < 8 {
+			odd = append(odd, fmt.Sprintf(format, a...))
+		}
+	}
+	realRoot := caseDir + absRoot(in.Cwd, in.Root)
+	pathOf := func(p any) (string, bool) {
+		v := reflect.ValueOf(p)
+		for v.Kind() == reflect.Pointer || v.Kind() == reflect.Interface {
+			if v.IsNil() {
+				return "", false
+			}
+			v = v.Elem()
+		}
+		if v.Kind() != reflect.Struct {
+			return "", false
+		}
+		f := v.FieldByName("path")
+		if !f.IsValid() || f.Kind() != reflect.String {
+			return "", false
+		}
+		return f.String(), true
+	}
+	abs := func(p string) string {
+		if !filepath.IsAbs(p) {
+			p = filepath.Join(caseDir+in.Cwd, p)
+		}
+		return filepath.Clean(p)
+	}
+	var stop atomic.Bool
+	var wg sync.WaitGroup
+	for k, peer := range in.Peers {
+		wg.Add(1)
+		go func(k int, peer string) {
+			defer wg.Done()
+			defer func() {
+				if r := recover(); r != nil {
+					note("!panic in a peer using %q", peer)
+				}
+			}()
+			own := filepath.Join(realRoot, peer)
+			for !stop.Load() {
+				if k%2 == 0 {
+					p, err := mgr.Get(ctx, peer)
+					if err != nil {
+						note("!peer Get(%q) failed although the plugin is installed", peer)
+						return
+					}
+					if pp, ok := pathOf(p); ok && abs(pp) != filepath.Join(own, "notation-"+peer) {
+						note("!peer Get(%q) was handed %s", peer, abstract(e.sandboxOf(caseDir), caseDir, abs(pp)))
+						return
+					}
+				} else {
+					if err := os.MkdirAll(own, 0o755); err != nil {
+						return
+					}
+					if err := mgr.Uninstall(ctx, peer); err != nil {
+						note("!peer Uninstall(%q) failed although its directory exists", peer)
+						os.RemoveAll(own)
+						return
+					}
+				}
+			}
+			if k%2 == 1 {
+				os.RemoveAll(own)
+			}
+		}(k, peer)
+	}
+	iterations, deadline := 60000, time.Now().Add(250*time.Millisecond)
+	if e.c.Thorough() {
+		iterations, deadline = 400000, time.Now().Add(1200*time.Millisecond)
+	}
+	ownDir := filepath.Join(realRoot, in.Name)
+	_, statErr := os.Lstat(ownDir)
+	existed := statErr == nil && validName(in.Name)
+	handed := map[string]pluginframework.Plugin{}
+	first := true
+	func() {
+		defer func() {
+			if r := recover(); r != nil {
+				note("!panic in %s", in.Op)
+				o.Err = true
+			}
+		}()
+		for n := 0; n < iterations && time.Now().Before(deadline); n++ {
+			var err error
+			switch in.Op {
+			case "get":
+				var p pluginframework.Plugin
+				p, err = mgr.Get(ctx, in.Name)
+				if err == nil {
+					if p == nil {
+						note("!Get returned neither a plugin nor an error")
+						return
+					}
+					pp, ok := pathOf(p)
+					if !ok {
+						pp = "?" // the path cannot be read: run what was handed out (first object only)
+					}
+					if _, seen := handed[pp]; !seen && len(handed) < 4 {
+						handed[pp] = p
+					}
+				}
+			case "uninstall":
+				if existed && n > 0 {
+					if err := os.MkdirAll(ownDir, 0o755); err != nil {
+						note("!set-up: %v", err)
+						return
+					}
+				}
+				err = mgr.Uninstall(ctx, in.Name)
+			case "install":
+				if n >= 12 {
+					return
+				}
+				_, _, err = mgr.Install(ctx, plugin.CLIInstallOptions{PluginPath: src, Overwrite: in.Overwrite})
+			default:
+				note("!unsupported concurrent operation %s", in.Op)
+				return
+			}
+			if first {
+				o.Err, first = err != nil, false
+			} else if (err != nil) != o.Err {
+				note("!%s(%q) answered differently in iteration %d", in.Op, in.Name, n)
+				return
+			}
+		}
+	}()
+	stop.Store(true)
+	wg.Wait()
+	// use every plugin object that was handed out for in.Name
+	keys := make([]string, 0, len(handed))
+	for k := range handed {
+		keys = append(keys, k)
+	}
+	sort.Strings(keys)
+	for _, k := range keys {
+		handed[k].GetMetadata(ctx, &pluginframework.GetMetadataRequest{})
+	}
+	return odd
+}
+
+func (e *env) sandboxOf(caseDir string) string { return strings.TrimSuffix(caseDir, jail) }
 
 // ---- generators --------------------------------------------------------------------------
 
@@ -1169,6 +1337,57 @@ func (e *env) pathCases(full bool) error {
 	return nil
 }
 
+// concurrentCases: one manager object used by several goroutines at once, each with its own name
+// (see concurrent). The operations are repeatable: look-ups, uninstall of a directory that is put
+// back before every call, re-installation with Overwrite over an installed plugin.
+func (e *env) concurrentCases(full bool) error {
+	type shape struct {
+		op, present string
+	}
+	shapes := []shape{{"get", "plugin"}, {"get", "absent"}, {"uninstall", "plugin"}, {"uninstall", "absent"}, {"install", "plugin"}, {"get", "pluginWithSiblings"}}
+	names := []string{"alpha", "my.plugin", "..", "../beta"}
+	peerSets := [][]string{{"beta", "scratch"}, {"beta", "scratch", "keep", "tmpdir"}, {"beta"}, {"keep", "beta.removing"}}
+	roots := []struct{ root, cwd string }{{"/a/p", ""}, {"../../lib/plugins", "/h/u/w"}}
+	for ri, r := range roots {
+		for ni, name := range names {
+			for si, sh := range shapes {
+				if sh.op == "install" && (!validName(name) || !fsLegal("notation-"+name)) {
+					continue
+				}
+				for pi, peers := range peerSets {
+					if !full && (ri+ni+si+pi)%4 != 0 && !(ri == 0 && ni == 0 && pi == 1) {
+						continue
+					}
+					ar := absRoot(r.cwd, r.root)
+					w := baseWorld(ar, name)
+					if r.cwd != "" {
+						w.dirAll(r.cwd)
+					}
+					if validName(name) {
+						applyVariant(w, ar, name, sh.present, 1)
+					}
+					for k, peer := range peers {
+						if k%2 == 0 { // looked up: installed; the others are created and uninstalled by their goroutine
+							w.put(path.Join(ar, peer, "notation-"+peer), "exec", 3)
+							w.put(path.Join(ar, peer, "LICENSE"), "file", 3)
+						}
+					}
+					in := Input{Op: sh.op, Root: r.root, Cwd: r.cwd, Name: name, Peers: peers, Overwrite: true}
+					if sh.op == "install" {
+						in.Src = "/dl/notation-" + name
+						w.put(in.Src, "exec", 2)
+					}
+					in.FS = w.list()
+					if err := e.runCase(in, "concurrent="+sh.op+"/"+sh.present); err != nil {
+						return err
+					}
+				}
+			}
+		}
+	}
+	return nil
+}
+
 func (e *env) listCases() error {
 	entries := [][]spec{
 		{},
@@ -1314,6 +1533,10 @@ func Run(c *common.Ctx) error {
 		return err
 	}
 	if err := e.pathCases(c.Thorough()); err != nil {
+		return err
+	}
+	// 4d. one manager object used by several goroutines at once
+	if err := e.concurrentCases(c.Thorough()); err != nil {
 		return err
 	}
 	// 5. random names from the grammar
